@@ -339,6 +339,8 @@ impl Hash for Primitive {
             BigInt(x) => x.hash(state),
             BuiltInFunction(x) => x.hash(state),
             Byte(x) => x.hash(state),
+            // `0.0 == -0.0`: keys that are equal have to hash alike
+            Float(x) if *x == 0.0 => integer_decode(0.0).hash(state),
             Float(x) => integer_decode(*x).hash(state),
             Function(x) => x.hash(state),
             Map(_) => unimplemented!("you may not use a map as a key"),
